@@ -4,6 +4,7 @@ use crate::ops::{FaultKind, Op};
 use crate::statics;
 use crate::view::*;
 use crate::world::*;
+use dashu_base::CubicRootRem as _CRR;
 use dashu_base::{
     Abs, BitTest, CubicRoot, DivEuclid, DivRem, DivRemAssign, DivRemEuclid, EstimatedLog2, ExtendedGcd, Gcd,
     PowerOfTwo, RemEuclid, Sign, Signed, SquareRoot, SquareRootRem, UnsignedAbs,
@@ -160,7 +161,7 @@ pub fn exec_u(w: &mut World, op: &Op, rest: &str, env: &mut Env) {
         "xor" => binop_forms!(w, env, op, u, Pool::U, ^, ^=),
         "divrem" => {
             let d2 = (dst + 1) % NP;
-            let (q, r) = match form % 8 {
+            let (q, r) = match form % 16 {
                 0 => own!(w.u[a], take).div_rem(own!(w.u[b], take)),
                 1 => own!(w.u[a], take).div_rem(&w.u[b]),
                 2 => {
@@ -179,7 +180,21 @@ pub fn exec_u(w: &mut World, op: &Op, rest: &str, env: &mut Env) {
                     (x, r)
                 }
                 6 => (&w.u[a]).div_rem_euclid(&w.u[b]),
-                _ => ((&w.u[a]).div_euclid(&w.u[b]), (&w.u[a]).rem_euclid(&w.u[b])),
+                7 => ((&w.u[a]).div_euclid(&w.u[b]), (&w.u[a]).rem_euclid(&w.u[b])),
+                // the operator pair reaches the separate quotient-only / remainder-only routines
+                8 => (w.u[a].clone() / w.u[b].clone(), w.u[a].clone() % w.u[b].clone()),
+                9 => (w.u[a].clone() / &w.u[b], w.u[a].clone() % &w.u[b]),
+                10 => (&w.u[a] / w.u[b].clone(), &w.u[a] % w.u[b].clone()),
+                11 => (&w.u[a] / &w.u[b], &w.u[a] % &w.u[b]),
+                12 => {
+                    let (mut q, mut r) = (w.u[a].clone(), w.u[a].clone());
+                    q /= &w.u[b];
+                    r %= w.u[b].clone();
+                    (q, r)
+                }
+                13 => w.u[a].clone().div_rem_euclid(w.u[b].clone()),
+                14 => (w.u[a].clone().div_euclid(&w.u[b]), (&w.u[a]).rem_euclid(w.u[b].clone())),
+                _ => (&w.u[a]).div_rem_euclid(w.u[b].clone()),
             };
             w.u[dst] = q;
             w.u[d2] = r;
@@ -191,12 +206,20 @@ pub fn exec_u(w: &mut World, op: &Op, rest: &str, env: &mut Env) {
                 return env.skip();
             }
             let n = op.n as usize;
-            match form % 4 {
+            match form % 7 {
                 0 => w.u[dst] = own!(w.u[a], take) << n,
                 1 => w.u[dst] = &w.u[a] << n,
                 2 => {
                     let mut x = own!(w.u[a], take);
                     x <<= n;
+                    w.u[dst] = x;
+                }
+                // the shift amount by reference
+                4 => w.u[dst] = own!(w.u[a], take) << &n,
+                5 => w.u[dst] = &w.u[a] << &n,
+                6 => {
+                    let mut x = own!(w.u[a], take);
+                    x <<= &n;
                     w.u[dst] = x;
                 }
                 _ => {
@@ -211,12 +234,20 @@ pub fn exec_u(w: &mut World, op: &Op, rest: &str, env: &mut Env) {
                 return env.skip();
             }
             let n = op.n as usize;
-            match form % 4 {
+            match form % 7 {
                 0 => w.u[dst] = own!(w.u[a], take) >> n,
                 1 => w.u[dst] = &w.u[a] >> n,
                 2 => {
                     let mut x = own!(w.u[a], take);
                     x >>= n;
+                    w.u[dst] = x;
+                }
+                // the shift amount by reference
+                4 => w.u[dst] = own!(w.u[a], take) >> &n,
+                5 => w.u[dst] = &w.u[a] >> &n,
+                6 => {
+                    let mut x = own!(w.u[a], take);
+                    x >>= &n;
                     w.u[dst] = x;
                 }
                 _ => {
@@ -242,9 +273,10 @@ pub fn exec_u(w: &mut World, op: &Op, rest: &str, env: &mut Env) {
             env.res(Pool::U, dst);
         }
         "sqrt" => {
-            w.u[dst] = match form % 2 {
+            w.u[dst] = match form % 3 {
                 0 => w.u[a].sqrt(),
-                _ => SquareRoot::sqrt(&w.u[a]),
+                1 => SquareRoot::sqrt(&w.u[a]),
+                _ => w.u[a].sqrt_rem().0,
             };
             env.res(Pool::U, dst);
         }
@@ -257,7 +289,11 @@ pub fn exec_u(w: &mut World, op: &Op, rest: &str, env: &mut Env) {
             env.res(Pool::U, d2);
         }
         "cbrt" => {
-            w.u[dst] = w.u[a].cbrt();
+            w.u[dst] = match form % 3 {
+                0 => w.u[a].cbrt(),
+                1 => w.u[a].nth_root(3),
+                _ => w.u[a].cbrt_rem().0,
+            };
             env.res(Pool::U, dst);
         }
         "root" => {
@@ -503,14 +539,23 @@ pub fn exec_u(w: &mut World, op: &Op, rest: &str, env: &mut Env) {
         }
         "neg" => {
             // -UBig gives IBig
-            let x: UBig = own!(w.u[a], take);
-            w.i[dst] = -x;
+            w.i[dst] = match form % 2 {
+                0 => {
+                    let x: UBig = own!(w.u[a], take);
+                    -x
+                }
+                _ => -&w.u[a],
+            };
             env.res(Pool::I, dst);
         }
         "mulsign" => {
             let s = if op.n & 1 == 1 { Sign::Negative } else { Sign::Positive };
             let x: UBig = own!(w.u[a], take);
-            w.i[dst] = x * s;
+            w.i[dst] = match form % 3 {
+                0 => x * s,
+                1 => s * x,
+                _ => IBig::from(x) * s,
+            };
             env.res(Pool::I, dst);
         }
         "rt" => {
@@ -635,7 +680,7 @@ pub fn exec_i(w: &mut World, op: &Op, rest: &str, env: &mut Env) {
         "xor" => binop_forms!(w, env, op, i, Pool::I, ^, ^=),
         "divrem" => {
             let d2 = (dst + 1) % NP;
-            let (q, r) = match form % 6 {
+            let (q, r) = match form % 11 {
                 0 => own!(w.i[a], take).div_rem(own!(w.i[b], take)),
                 1 => own!(w.i[a], take).div_rem(&w.i[b]),
                 2 => {
@@ -648,10 +693,21 @@ pub fn exec_i(w: &mut World, op: &Op, rest: &str, env: &mut Env) {
                     let r = x.div_rem_assign(own!(w.i[b], take));
                     (x, r)
                 }
-                _ => {
+                5 => {
                     let mut x = own!(w.i[a], take);
                     let r = x.div_rem_assign(&w.i[b]);
                     (x, r)
+                }
+                // the operator pair reaches the separate quotient-only / remainder-only routines
+                6 => (w.i[a].clone() / w.i[b].clone(), w.i[a].clone() % w.i[b].clone()),
+                7 => (w.i[a].clone() / &w.i[b], w.i[a].clone() % &w.i[b]),
+                8 => (&w.i[a] / w.i[b].clone(), &w.i[a] % w.i[b].clone()),
+                9 => (&w.i[a] / &w.i[b], &w.i[a] % &w.i[b]),
+                _ => {
+                    let (mut q, mut r) = (w.i[a].clone(), w.i[a].clone());
+                    q /= &w.i[b];
+                    r %= w.i[b].clone();
+                    (q, r)
                 }
             };
             w.i[dst] = q;
@@ -661,7 +717,7 @@ pub fn exec_i(w: &mut World, op: &Op, rest: &str, env: &mut Env) {
         }
         "diveuclid" => {
             // quotient in I[dst], remainder (UBig) in U[dst]
-            let (q, r) = match form % 5 {
+            let (q, r) = match form % 8 {
                 0 => own!(w.i[a], take).div_rem_euclid(own!(w.i[b], take)),
                 1 => own!(w.i[a], take).div_rem_euclid(&w.i[b]),
                 2 => {
@@ -669,7 +725,10 @@ pub fn exec_i(w: &mut World, op: &Op, rest: &str, env: &mut Env) {
                     (&w.i[a]).div_rem_euclid(y)
                 }
                 3 => (&w.i[a]).div_rem_euclid(&w.i[b]),
-                _ => ((&w.i[a]).div_euclid(&w.i[b]), (&w.i[a]).rem_euclid(&w.i[b])),
+                4 => ((&w.i[a]).div_euclid(&w.i[b]), (&w.i[a]).rem_euclid(&w.i[b])),
+                5 => (w.i[a].clone().div_euclid(w.i[b].clone()), w.i[a].clone().rem_euclid(w.i[b].clone())),
+                6 => (w.i[a].clone().div_euclid(&w.i[b]), w.i[a].clone().rem_euclid(&w.i[b])),
+                _ => ((&w.i[a]).div_euclid(w.i[b].clone()), (&w.i[a]).rem_euclid(w.i[b].clone())),
             };
             w.i[dst] = q;
             w.u[dst] = r;
@@ -710,8 +769,9 @@ pub fn exec_i(w: &mut World, op: &Op, rest: &str, env: &mut Env) {
         }
         "mulsign" => {
             let s = if op.n & 1 == 1 { Sign::Negative } else { Sign::Positive };
-            match form % 2 {
+            match form % 3 {
                 0 => w.i[dst] = own!(w.i[a], take) * s,
+                2 => w.i[dst] = s * own!(w.i[a], take),
                 _ => {
                     w.i[a] *= s;
                     return env.res(Pool::I, a);
@@ -724,12 +784,20 @@ pub fn exec_i(w: &mut World, op: &Op, rest: &str, env: &mut Env) {
                 return env.skip();
             }
             let n = op.n as usize;
-            match form % 4 {
+            match form % 7 {
                 0 => w.i[dst] = own!(w.i[a], take) << n,
                 1 => w.i[dst] = &w.i[a] << n,
                 2 => {
                     let mut x = own!(w.i[a], take);
                     x <<= n;
+                    w.i[dst] = x;
+                }
+                // the shift amount by reference
+                4 => w.i[dst] = own!(w.i[a], take) << &n,
+                5 => w.i[dst] = &w.i[a] << &n,
+                6 => {
+                    let mut x = own!(w.i[a], take);
+                    x <<= &n;
                     w.i[dst] = x;
                 }
                 _ => {
@@ -744,12 +812,20 @@ pub fn exec_i(w: &mut World, op: &Op, rest: &str, env: &mut Env) {
                 return env.skip();
             }
             let n = op.n as usize;
-            match form % 4 {
+            match form % 7 {
                 0 => w.i[dst] = own!(w.i[a], take) >> n,
                 1 => w.i[dst] = &w.i[a] >> n,
                 2 => {
                     let mut x = own!(w.i[a], take);
                     x >>= n;
+                    w.i[dst] = x;
+                }
+                // the shift amount by reference
+                4 => w.i[dst] = own!(w.i[a], take) >> &n,
+                5 => w.i[dst] = &w.i[a] >> &n,
+                6 => {
+                    let mut x = own!(w.i[a], take);
+                    x >>= &n;
                     w.i[dst] = x;
                 }
                 _ => {
@@ -777,6 +853,13 @@ pub fn exec_i(w: &mut World, op: &Op, rest: &str, env: &mut Env) {
         "sqrt" => {
             w.u[dst] = w.i[a].sqrt();
             env.res(Pool::U, dst);
+        }
+        "cbrt" => {
+            w.i[dst] = match form % 2 {
+                0 => w.i[a].cbrt(),
+                _ => w.i[a].nth_root(3),
+            };
+            env.res(Pool::I, dst);
         }
         "root" => {
             if op.n < 0 {
@@ -1048,6 +1131,58 @@ pub fn exec_mixed(w: &mut World, op: &Op, fam: &str, rest: &str, env: &mut Env) 
             }
             "or" => mixed_forms!(w, env, op, i, u, Pool::I, |, |=, to_i),
             "xor" => mixed_forms!(w, env, op, i, u, Pool::I, ^, ^=, to_i),
+            "divrem" => {
+                // IBig.div_rem(UBig) -> (IBig, IBig): trait forms, the operator pair, the convert-first reference
+                let (a, b, dst) = (ix(op.a), ix(op.b), ix(op.dst));
+                let d2 = (dst + 1) % NP;
+                let (q, r): (IBig, IBig) = match (op.form & 255) % 7 {
+                    0 => w.i[a].clone().div_rem(w.u[b].clone()),
+                    1 => w.i[a].clone().div_rem(&w.u[b]),
+                    2 => (&w.i[a]).div_rem(w.u[b].clone()),
+                    3 => (&w.i[a]).div_rem(&w.u[b]),
+                    4 => (&w.i[a] / &w.u[b], &w.i[a] % &w.u[b]),
+                    5 => {
+                        let (mut q, mut r) = (w.i[a].clone(), w.i[a].clone());
+                        q /= &w.u[b];
+                        r %= w.u[b].clone();
+                        (q, r)
+                    }
+                    _ => (&w.i[a]).div_rem(&to_i(&w.u[b])),
+                };
+                w.i[dst] = q;
+                w.i[d2] = r;
+                env.res(Pool::I, dst);
+                env.res(Pool::I, d2);
+            }
+            "gcd" => {
+                let (a, b, dst) = (ix(op.a), ix(op.b), ix(op.dst));
+                let g: UBig = match (op.form & 255) % 5 {
+                    0 => w.i[a].clone().gcd(w.u[b].clone()),
+                    1 => w.i[a].clone().gcd(&w.u[b]),
+                    2 => (&w.i[a]).gcd(w.u[b].clone()),
+                    3 => (&w.i[a]).gcd(&w.u[b]),
+                    _ => (&w.i[a]).gcd(&to_i(&w.u[b])),
+                };
+                w.u[dst] = g;
+                env.res(Pool::U, dst);
+            }
+            "gcdext" => {
+                let (a, b, dst) = (ix(op.a), ix(op.b), ix(op.dst));
+                let d2 = (dst + 1) % NP;
+                let (g, s, t): (UBig, IBig, IBig) = match (op.form & 255) % 5 {
+                    0 => w.i[a].clone().gcd_ext(w.u[b].clone()),
+                    1 => w.i[a].clone().gcd_ext(&w.u[b]),
+                    2 => (&w.i[a]).gcd_ext(w.u[b].clone()),
+                    3 => (&w.i[a]).gcd_ext(&w.u[b]),
+                    _ => (&w.i[a]).gcd_ext(&to_i(&w.u[b])),
+                };
+                w.u[dst] = g;
+                w.i[dst] = s;
+                w.i[d2] = t;
+                env.res(Pool::U, dst);
+                env.res(Pool::I, dst);
+                env.res(Pool::I, d2);
+            }
             _ => untracked(|| panic!("dsim: unknown op iu.{}", rest)),
         }
     } else {
@@ -1073,15 +1208,93 @@ pub fn exec_mixed(w: &mut World, op: &Op, fam: &str, rest: &str, env: &mut Env) 
             "div" => ui!(/),
             "rem" => {
                 // UBig % IBig gives UBig in dashu: normalise to IBig for comparison
-                let r: IBig = match (op.form & 255) % 5 {
+                let r: IBig = match (op.form & 255) % 7 {
                     0 => IBig::from(w.u[a].clone() % w.i[b].clone()),
                     1 => IBig::from(w.u[a].clone() % &w.i[b]),
                     2 => IBig::from(&w.u[a] % w.i[b].clone()),
                     3 => IBig::from(&w.u[a] % &w.i[b]),
+                    5 => {
+                        let mut x = w.u[a].clone();
+                        x %= w.i[b].clone();
+                        IBig::from(x)
+                    }
+                    6 => {
+                        let mut x = w.u[a].clone();
+                        x %= &w.i[b];
+                        IBig::from(x)
+                    }
                     _ => &IBig::from(w.u[a].clone()) % &w.i[b],
                 };
                 w.i[dst] = r;
                 env.res(Pool::I, dst);
+            }
+            "and" => {
+                // UBig & IBig gives UBig (own and_not path for a negative right operand)
+                let r: IBig = match (op.form & 255) % 7 {
+                    0 => IBig::from(w.u[a].clone() & w.i[b].clone()),
+                    1 => IBig::from(w.u[a].clone() & &w.i[b]),
+                    2 => IBig::from(&w.u[a] & w.i[b].clone()),
+                    3 => IBig::from(&w.u[a] & &w.i[b]),
+                    5 => {
+                        let mut x = w.u[a].clone();
+                        x &= w.i[b].clone();
+                        IBig::from(x)
+                    }
+                    6 => {
+                        let mut x = w.u[a].clone();
+                        x &= &w.i[b];
+                        IBig::from(x)
+                    }
+                    _ => &IBig::from(w.u[a].clone()) & &w.i[b],
+                };
+                w.i[dst] = r;
+                env.res(Pool::I, dst);
+            }
+            "divrem" => {
+                // UBig.div_rem(IBig) -> (IBig, UBig)
+                let (q, r): (IBig, UBig) = match (op.form & 255) % 6 {
+                    0 => w.u[a].clone().div_rem(w.i[b].clone()),
+                    1 => w.u[a].clone().div_rem(&w.i[b]),
+                    2 => (&w.u[a]).div_rem(w.i[b].clone()),
+                    3 => (&w.u[a]).div_rem(&w.i[b]),
+                    4 => (&w.u[a] / &w.i[b], &w.u[a] % &w.i[b]),
+                    _ => {
+                        let (q, r) = (&IBig::from(w.u[a].clone())).div_rem(&w.i[b]);
+                        // the remainder has the sign of the (non-negative) dividend
+                        (q, r.unsigned_abs())
+                    }
+                };
+                w.i[dst] = q;
+                w.u[dst] = r;
+                env.res(Pool::I, dst);
+                env.res(Pool::U, dst);
+            }
+            "gcd" => {
+                let g: UBig = match (op.form & 255) % 5 {
+                    0 => w.u[a].clone().gcd(w.i[b].clone()),
+                    1 => w.u[a].clone().gcd(&w.i[b]),
+                    2 => (&w.u[a]).gcd(w.i[b].clone()),
+                    3 => (&w.u[a]).gcd(&w.i[b]),
+                    _ => (&IBig::from(w.u[a].clone())).gcd(&w.i[b]),
+                };
+                w.u[dst] = g;
+                env.res(Pool::U, dst);
+            }
+            "gcdext" => {
+                let d2 = (dst + 1) % NP;
+                let (g, s, t): (UBig, IBig, IBig) = match (op.form & 255) % 5 {
+                    0 => w.u[a].clone().gcd_ext(w.i[b].clone()),
+                    1 => w.u[a].clone().gcd_ext(&w.i[b]),
+                    2 => (&w.u[a]).gcd_ext(w.i[b].clone()),
+                    3 => (&w.u[a]).gcd_ext(&w.i[b]),
+                    _ => (&IBig::from(w.u[a].clone())).gcd_ext(&w.i[b]),
+                };
+                w.u[dst] = g;
+                w.i[dst] = s;
+                w.i[d2] = t;
+                env.res(Pool::U, dst);
+                env.res(Pool::I, dst);
+                env.res(Pool::I, d2);
             }
             "or" => ui!(|),
             "xor" => ui!(^),
